@@ -3,6 +3,7 @@
 //! print `request<TAB>observation` lines for the Lean model driver.
 
 mod labs;
+mod reg_child;
 mod rng;
 
 use std::io::{BufRead, Write};
@@ -25,6 +26,11 @@ fn exec_line(req: &str) -> String {
 }
 
 fn main() {
+    if let Ok(req) = std::env::var("VERIF_REG") {
+        // Registry lab child: the command line belongs to divan.
+        reg_child::main(&req);
+        return;
+    }
     let args: Vec<String> = std::env::args().collect();
     std::panic::set_hook(Box::new(|_| {}));
     let out = std::io::stdout();
